@@ -254,6 +254,7 @@ def splitFamily : List String :=
 def contentFamily : List String :=
   ["", " ", "% only a comment", "BX ) EX", "BX > EX", "BX ] EX", "BX { EX", "BX } EX", "BX foo EX", "BX foo", "BX BX foo EX bar EX",
    "BX EX foo", "EX", "BX EX EX", "BX (a) ) EX", "BX << EX", "BX [ EX", "BX <41 EX", "BX /#00 EX", "q BX ) EX Q",
+   "BT <fffe80> Tj ET", "BT (\xff\xfe) Tj ET", "BT [(ok) <c328> (\x80)] TJ ET", "BT <c3a9> Tj ET",
    "BT", "BT ET ET", "BT BT ET", "BT (a) Tj", "BT (a) Tj ET", "BT TJ ET", "BT [(a)] [(b)] TJ ET", "BT [(a) [(b)]] TJ ET",
    "BT (a) (b) (c) \" ET", "BT 1 2 (c) \" ET", "BT (a) ' ET", "BT q ET", "q Q", "Q", "1 2 3", "(a)", "1 2 m 3 4 l S", "1 2 m 3 4 l",
    "1 2 m W n", "1 2 m W 3 4 l", "0 0 1 1 re W* n f", "BI /W 1 ID abc EI", "BI ID EI", "BI /W 1 ID", "EI", "ID",
